@@ -161,6 +161,10 @@ def build_cases(ctx, n_stmts, muts):
             crlf += ('\r\n  ' if i % 2 == 0 else ' ') + t
         for bad in (' #', '\r\n ^ x', '\r\n\r\n   §'):
             cases.append((crlf + bad, 'illegal-char-crlf'))
+        # the illegal character on the FIRST, a middle and the last line of a text of several lines
+        for k_ in sorted({0, len(toks) // 2, len(toks) - 1}):
+            cases.append((' '.join(toks[:k_ + 1]) + ' # ' + '\n'.join(toks[k_ + 1:]) + '\n', 'illegal-char-line-position'))
+            cases.append((toks[0] + ' § \n' + '\n  '.join(toks[1:]), 'illegal-char-line-position'))
         for ch in ('\x0c', '\u2028', '\x85', '\x0b', '\u2029', '\x1c'):
             cases.append(("select 'a%sb' as c1,\n  'x' as c2\nfrom t %s where y = ^ 1" % (ch, "/* %s */" % ch), 'illegal-char-after-unicode-linebreak'))
             cases.append(("select 'a%sb' as c1 ^" % ch, 'illegal-char-after-unicode-linebreak'))
